@@ -13,6 +13,7 @@ from . import _nsutil as nu
 ID = "C15"
 TITLE = "A type's name, version and port-ID are exactly those encoded in its file path"
 RULE = (
+    "(Part reroot: one directory read 2..4 times in one process with the root namespace designated at different ancestor levels, through read_namespace / read_files with a path / a bare name.  Malformed names include lenient number spellings: signs, digit separators, blanks, non-ASCII digits.)  "
     "Cases are a file layout <prefix dirs>/<root>/<0..3 namespaces>/[<port>.]<Short>.<major>.<minor>.dsdl (drawn names, versions 0..255, "
     "optional regulated port-ID, message or service) or a malformed file name (missing / extra / non-numeric components, dots in "
     "directory names) x a designation for read_files: target absolute / relative to cwd / ./-prefixed / relative to the root's parent; "
